@@ -54,6 +54,15 @@ type failure struct {
 	dims    map[string]string
 	what    string
 	witness any
+	size    int // size of the case: the smallest failing case of a class becomes its witness
+}
+
+// simpler orders failures deterministically (independent of worker scheduling): smaller case first.
+func (f failure) simpler(g failure) bool {
+	if f.size != g.size {
+		return f.size < g.size
+	}
+	return f.what < g.what
 }
 
 type combo struct {
@@ -90,6 +99,10 @@ func dimKey(d map[string]string) string {
 }
 
 func (c *collector) add(f failure) {
+	if f.size == 0 {
+		b, _ := json.Marshal(f.witness)
+		f.size = len(b)
+	}
 	c.mu.Lock()
 	defer c.mu.Unlock()
 	pk := f.primary.String()
@@ -113,6 +126,8 @@ func (c *collector) add(f failure) {
 		}
 		cb = &combo{dims: f.dims, first: f}
 		g.combos[ck] = cb
+	} else if f.simpler(cb.first) {
+		cb.first = f
 	}
 	cb.count++
 }
@@ -176,6 +191,9 @@ func (c *collector) emit(r *vrun.Run) {
 			if x == nil {
 				x = &res{sig: sig, first: cb.first, vals: map[string]map[string]struct{}{}}
 				resolved[rk] = x
+			}
+			if cb.first.simpler(x.first) {
+				x.first = cb.first
 			}
 			x.count += cb.count
 			for d, v := range cb.dims {
